@@ -106,6 +106,20 @@ func (ev *Evaluator) evalRoot(fn *ssa.Function) (Val, State) {
 	return r, st
 }
 
+// evalRootWith is evalRoot with some parameters fixed to integer constants (by name): loops
+// bounded by them are then executed iteration by iteration.
+func (ev *Evaluator) evalRootWith(fn *ssa.Function, consts map[string]int64) (Val, State) {
+	st := State{mem: map[*Obj]Val{}}
+	args := symArgs(fn)
+	for i, p := range fn.Params {
+		if c, ok := consts[p.Name()]; ok && i < len(args) {
+			args[i] = K(c)
+		}
+	}
+	r := ev.Call(fn, args, symFree(fn), &st)
+	return r, st
+}
+
 // resultObject follows a returned pointer / interface / (x, err) tuple to the
 // abstract object it designates, if any.
 func resultObject(r Val, st State) (Val, bool) {
@@ -227,7 +241,15 @@ func cmdShow(args []string) int {
 		}
 	}
 	ev := newEval(ctx, opaque...)
-	r, st := ev.evalRoot(fn)
+	consts := map[string]int64{}
+	for _, a := range args[2:] {
+		if i := strings.Index(a, "="); i > 0 && !strings.HasPrefix(a, "opaque=") {
+			var v int64
+			fmt.Sscan(a[i+1:], &v)
+			consts[a[:i]] = v
+		}
+	}
+	r, st := ev.evalRootWith(fn, consts)
 	fmt.Printf("== %s steps=%d exceeded=%v\n  ret: %s\n", shortFn(fn), ev.steps, ev.Exceeded, valKey(r))
 	if v, ok := resultObject(r, st); ok {
 		m := map[string]*Term{}
